@@ -125,7 +125,7 @@ def run(tier):
             if rec[0] == 'exception':
                 chk.violation('python:until-filter:exception', '_create_zones_with_until_day raised %s' % rec[1], {})
                 break
-            zn, y, m, dow, dom, kept, day = rec
+            zn, y, m, dow, dom, kept, day, kmonth = rec
             # the declarative resolution, computed from the day count of the TLC table's own calendar (same formulas as Calendar.tla)
             import datetime
             if dom == 0:
@@ -143,8 +143,8 @@ def run(tier):
             spills = d.year != y
             if spills and kept:
                 chk.violation('python:until-filter:admits-year-spill:m=%d' % m, 'era with UNTIL %d month %d dow %d dom %d is kept (resolved to day %s) although the expression falls on %s' % (y, m, dow, dom, day, d), {'zone': zn})
-            elif not spills and kept and day != d.day:
-                chk.violation('python:until-filter:wrong-day', 'UNTIL %d month %d dow %d dom %d resolved to day %s, the calendar says %s' % (y, m, dow, dom, day, d), {'zone': zn})
+            elif not spills and kept and (day != d.day or kmonth != d.month):
+                chk.violation('python:until-filter:wrong-day', 'UNTIL %d month %d dow %d dom %d resolved to month %s day %s, the calendar says %s' % (y, m, dow, dom, kmonth, day, d), {'zone': zn})
         chk.add(python_rows=p['n'], on_strings_parsed=p['nparse'], rejection_filter_expressions=p['nexpr'], calc_contract_rows=ncon, until_filter_cases=nun)
     # 5. the resolved (month, day) *as the processors use it*: a source whose rules resolve into the neighbouring month in
     # most years, through the real compiler (both scopes, both targets), the generated C++ tables read by the real processors
